@@ -43,6 +43,10 @@ type Sym struct {
 	// with no intervening store denote the same value).
 	LoadRep func(*ssa.UnOp) ssa.Value
 	frame   *Frame
+	// cells.go: running-offset cells worked on by closures / cursor methods
+	groups map[*ssa.Alloc]*cellGroup
+	over   map[symKey]lin.Form // loads of a cell inside a replayed helper activation
+	loops  map[symLoopKey]*Loop
 }
 
 // OfIn / LenOfIn evaluate a value that lives in an inlined helper's frame:
@@ -176,6 +180,11 @@ func (z *Sym) of(v ssa.Value, d int) lin.Form {
 	if d > 512 {
 		return z.term(v, false)
 	}
+	if z.over != nil {
+		if f, ok := z.over[symKey{v, z.activation(v)}]; ok {
+			return f
+		}
+	}
 	switch x := v.(type) {
 	case *ssa.Phi:
 		// a header φ of an unrolled loop, read in one of its iterations
@@ -219,7 +228,35 @@ func (z *Sym) of(v ssa.Value, d int) lin.Form {
 		if b, ok := x.Call.Value.(*ssa.Builtin); ok && b.Name() == "len" {
 			return z.LenOf(x.Call.Args[0])
 		}
+		// a running-offset helper: place(b) returning the cell's value (cells.go)
+		if f, ok := z.cellCall(x); ok {
+			return f
+		}
+	case *ssa.Field:
+		if e, ef, ok := fieldLoad(x, z.frame); ok {
+			return z.in(ef, func() lin.Form { return z.of(e, d+1) })
+		}
+	case *ssa.FreeVar:
+		if b, bf, ok := freeVarBinding(x, z.frame); ok {
+			return z.in(bf, func() lin.Form { return z.of(b, d+1) })
+		}
 	case *ssa.UnOp:
+		if x.Op == token.MUL {
+			if f, ok := z.cellLoad(x); ok {
+				return f
+			}
+			// a field of a local struct value written once (cells.go)
+			if e, ef, ok := fieldLoad(x, z.frame); ok {
+				return z.in(ef, func() lin.Form { return z.of(e, d+1) })
+			}
+			if e, ef, ok := cellLoadValue(x, z.frame); ok {
+				return z.in(ef, func() lin.Form { return z.of(e, d+1) })
+			}
+			// an element of an integer table filled by a counted loop (cells.go)
+			if f, ok := z.intTableLoad(x); ok {
+				return f
+			}
+		}
 		if x.Op == token.MUL && z.LoadRep != nil {
 			if rep := z.LoadRep(x); rep != ssa.Value(x) {
 				return z.of(rep, d+1)
@@ -289,11 +326,25 @@ func (z *Sym) lenOf(v ssa.Value, d int) lin.Form {
 		if el, ef, ok := elemLoad(x, z.frame); ok {
 			return z.in(ef, func() lin.Form { return z.lenOf(el, d+1) })
 		}
+	case *ssa.Field:
+		if e, ef, ok := fieldLoad(x, z.frame); ok {
+			return z.in(ef, func() lin.Form { return z.lenOf(e, d+1) })
+		}
+	case *ssa.FreeVar:
+		if b, bf, ok := freeVarBinding(x, z.frame); ok {
+			return z.in(bf, func() lin.Form { return z.lenOf(b, d+1) })
+		}
 	case *ssa.UnOp:
 		if x.Op == token.MUL {
 			// element of a local constant table
 			if el, ef, ok := elemLoad(x, z.frame); ok {
 				return z.in(ef, func() lin.Form { return z.lenOf(el, d+1) })
+			}
+			if e, ef, ok := fieldLoad(x, z.frame); ok {
+				return z.in(ef, func() lin.Form { return z.lenOf(e, d+1) })
+			}
+			if e, ef, ok := cellLoadValue(x, z.frame); ok {
+				return z.in(ef, func() lin.Form { return z.lenOf(e, d+1) })
 			}
 		}
 		if x.Op == token.MUL && z.LoadRep != nil {
